@@ -201,7 +201,7 @@ def gen_document(rng, path: str, *, hostile_ids: bool = False, stem_marker: floa
         kl = rx.createKineticLaw()
         s0 = subs[0]
         k = rng.choice(params)
-        kind = rng.choice(["ma", "fd", "piecewise", "power", "transcendental", "rule", "local", "time", "power_tower"])
+        kind = rng.choice(["ma", "fd", "piecewise", "power", "transcendental", "rule", "local", "time", "power_tower", "real_exponents"])
         if kind == "fd" and fds:
             name, ar = rng.choice(fds)
             formula = f"{name}({s0}, {k}, {rng.choice(params)})" if ar == 3 else f"{name}({s0}, {k})"
@@ -223,6 +223,11 @@ def gen_document(rng, path: str, *, hostile_ids: bool = False, stem_marker: floa
             else:
                 formula = f"{k} * (({s0} - {other})^2)^0.5 + 0.125 * (({other} - 1.2)^2)^1.5"
             feats.add("power_of_a_power_with_sign_changing_base")
+        elif kind == "real_exponents":
+            # kinetic orders written as real numbers, including the order 1.0, in the middle of a product
+            other = rng.choice(species)
+            formula = rng.choice([f"{s0}^1.0 * {other} * {k}", f"{k} * {s0}^1.0 * {other}^2.0", f"{s0}^1.0 * {k} / (1.0 * {other} + 1.0)", f"1.0 * {s0}^0.5 * {other}^1.0 * {k}"])
+            feats.add("real_valued_kinetic_orders")
         elif kind == "transcendental":
             formula = f"{k} * exp(-{s0}) + ln(1 + {s0}) * 0.1 + sqrt({s0})"
             feats.add("transcendental")
